@@ -72,9 +72,9 @@ func init() {
 		MinNontrivial: 200,
 		Phases: []fw.Phase{
 			{Name: "matrix", N: func(t fw.Tier) int {
-				return pick(t, 3*len(c12Forms)*len(c12Positions), 60*len(c12Forms)*len(c12Positions))
+				return pick(t, 6*len(c12Forms)*len(c12Positions), 80*len(c12Forms)*len(c12Positions))
 			}, Run: c12Matrix},
-			{Name: "rich", N: func(t fw.Tier) int { return pick(t, 3000, 150000) }, Run: c12Rich},
+			{Name: "rich", N: func(t fw.Tier) int { return pick(t, 10000, 200000) }, Run: c12Rich},
 			{Name: "parjoin", N: func(t fw.Tier) int { return pick(t, 128, 2000) }, Run: c12ParJoin, Batch: 8},
 		},
 		Witness: sqlWitness,
